@@ -184,6 +184,48 @@ theorem one_row_per_attribute (f : Frame) (attrs : Option (List String)) (rows :
 theorem rejects_non_dataframe (attrs : Option (List String)) : profileTable none attrs = .error .typeErr := by
   simp [profileTable, validateInputTable, bind, Except.bind]
 
+/-! ### row order and growth of the column
+
+  The statistics are functions of the multiset of cells: re-ordering the rows of the table changes no entry; stacking
+  two tables adds the missing counts, and the distinct count of the stack lies between each part's and their sum. -/
+
+/-- the number of distinct values does not depend on the order of the rows -/
+theorem distinct_perm {c₁ c₂ : List Cell} (h : c₁.Perm c₂) : distinctValues c₁ = distinctValues c₂ := by
+  rw [distinct_values_missing_as_one, distinct_values_missing_as_one,
+    List.toFinset_eq_of_perm _ _ (h.map valueOf)]
+
+/-- the number of missing values does not depend on the order of the rows -/
+theorem missing_perm {c₁ c₂ : List Cell} (h : c₁.Perm c₂) : missingValues c₁ = missingValues c₂ :=
+  h.count_eq _
+
+/-- both statistics entries of the profile are the same for every order of the rows -/
+theorem entries_perm {c₁ c₂ : List Cell} (h : c₁.Perm c₂) (hn : c₁.length < 2 ^ 53) :
+    (profileColumn c₁).1 = (profileColumn c₂).1 ∧ (profileColumn c₁).2.1 = (profileColumn c₂).2.1 := by
+  have hn₂ : c₂.length < 2 ^ 53 := h.length_eq ▸ hn
+  rw [unique_entry_exact c₁ hn, unique_entry_exact c₂ hn₂, missing_entry_exact c₁ hn, missing_entry_exact c₂ hn₂,
+    distinct_perm h, missing_perm h, h.length_eq]
+  exact ⟨rfl, rfl⟩
+
+/-- stacking two columns adds their missing counts -/
+theorem missing_append (a b : List Cell) : missingValues (a ++ b) = missingValues a + missingValues b :=
+  List.count_append
+
+/-- stacking never loses a distinct value and never invents one -/
+theorem distinct_append (a b : List Cell) :
+    distinctValues a ≤ distinctValues (a ++ b) ∧ distinctValues b ≤ distinctValues (a ++ b) ∧
+      distinctValues (a ++ b) ≤ distinctValues a + distinctValues b := by
+  simp only [distinct_values_missing_as_one, List.map_append, List.toFinset_append]
+  exact ⟨Finset.card_le_card Finset.subset_union_left, Finset.card_le_card Finset.subset_union_right,
+    Finset.card_union_le _ _⟩
+
+/-- a column that can serve as a key keeps that quality under any re-ordering of its rows -/
+theorem all_distinct_perm {c₁ c₂ : List Cell} (h : c₁.Perm c₂) : AllDistinct c₁ ↔ AllDistinct c₂ :=
+  (h.map valueOf).nodup_iff
+
+example : distinctValues [.int 1, .missing, .flt 1] = distinctValues [.missing, .flt 1, .int 1] :=
+  distinct_perm (by decide)
+example : distinctValues ([.int 1, .str "a"] ++ [.flt 1, .missing]) = 3 := by decide
+
 /-! ### non-vacuity -/
 
 /-- a mixed object column: `1`, `1.0`, `True` are one value, `'1'` another, the two missing cells (None, NaN) a third -/
